@@ -67,6 +67,12 @@ def gen_case(seed, k):
             if mut:
                 fields[dm].sem["DerefMut"] = {"flag": True}
         v.des = {"Deref": fields[d], "DerefMut": fields[dm] if mut else None}
+        # foreign attributes (doc comments, lints) on any field, marked or not: they take no part in finding the designated
+        # field and do not shift positions (own random stream: the definitions themselves stay what they were)
+        frng = rng_for(seed, PROP, "foreign", k, vi)
+        for f in fields:
+            if frng.random() < 0.3:
+                f.sem["_foreign"] = frng.sample(S.FOREIGN_ATTRS, frng.choice([1, 1, 2]))
         td.variants.append(v)
     if lt:
         td.params.append({"kind": "lt", "name": "'a", "arg": "'static"})
@@ -252,6 +258,7 @@ def rich_field_expr(ft, depth, mutable, val):
 
 def rich_case(seed, k):
     rng = rng_for(seed, PROP, "rich", k)
+    frng = rng_for(seed, PROP, "richforeign", k)
     cls = rng.choice(sorted(CLASSES))
     target, ftypes, val, write, after = CLASSES[cls]
     mut = write is not None and rng.random() < 0.6
@@ -323,6 +330,8 @@ def rich_case(seed, k):
         a = ""
         if marks:
             a = "#[educe(%s)] " % ", ".join(marks) if rng.random() < 0.6 else "".join("#[educe(%s)] " % m for m in marks)
+        fa = f.setdefault("foreign", frng.choice(["", "", "#[allow(dead_code)] ", "#[doc = \"d\"] ", "#[cfg(all())] "]))
+        a = (fa + a) if f["i"] % 2 else (a + fa)
         if vis:
             # (how visible a field is has nothing to do with which field is designated)
             vis = f.setdefault("vis", rng.choice(["pub ", "pub ", "", "pub(crate) ", "pub(self) "]))
@@ -493,7 +502,9 @@ def big_tuple_case(seed):
     fields = []
     for i in range(n):
         marks = (["Deref"] if i == d else []) + (["DerefMut"] if i == dm else [])
-        fields.append(("#[educe(%s)] " % ", ".join(marks) if marks else "") + "pub u8")
+        # (every seventh unmarked field carries a foreign attribute: positions are counted over all fields)
+        fields.append(("#[educe(%s)] " % ", ".join(marks) if marks else ("#[allow(dead_code)] " if i % 7 == 3 else "/// doc\n    " if i % 7 == 5 else ""))
+                      + "pub u8")
     text = "#[derive(::educe::Educe, Debug)]\n#[educe(Deref, DerefMut)]\npub struct Ty(\n%s);\n" % "".join("    %s,\n" % f for f in fields)
     vals = ", ".join(str(i % 251) for i in range(n))
     after = ", ".join("200" if i == dm else str(i % 251) for i in range(n))
